@@ -91,6 +91,12 @@ def run(ctx):
     alpha = sessrun.alphabet(ctx)
     sspecs = [sessrun.random_walk(rng, alpha, "w%d" % i, rng.randint(5, 40)) for i in range(250 if q else 4000)]
     nspecs = [{"id": "n%d" % i, "evs": netcheck.random_walk(rng, rng.randint(10, 80), False)} for i in range(60 if q else 1500)]
+    # retransmissions of messages with non-ASCII text: a journaled latin-1 message replayed on a ResendRequest
+    from .c06 import RF, RS
+    for i, v in enumerate(["Z\xfcrich desk", "\xe9", "\xff\xa0x", "caf\xe9 8=FIX.4.4", "a\xb2"]):
+        sspecs.append({"id": "l1r%d" % i, "declined": [],
+                       "revs": [{"t": "attach"}, RF("LOGON", 0), RS("APP", "11=q%d|58=%s" % (i, v)), RS("APP", "11=r%d" % i),
+                                RF("RR", 0, bm="abs", bv=1, em="abs", ev=0), RS("APP", "11=s%d|58=%s" % (i, v))]})
     raws = pmap(_sess, sspecs) + pmap(_net, nspecs)
     seen = set()
     k = 0
